@@ -88,7 +88,7 @@ var corpus = []Case{
 	{Note: "regular entry over a dangling planted symlink: new file in an existing outside directory", Prepop: "empty", Pushes: []Push{
 		arch("pkg", dir("pkg/"), dir("pkg/x/"), dir("pkg/x/y/"), sym("pkg/x/y/d", "../.."), sym("pkg/x/y/e", "d/../../outdir/created.txt"), reg("pkg/x/y/e"))}},
 	{Note: "regular entry over a dangling symlink planted through a pre-existing inside-pointing link", Prepop: "ds", Pushes: []Push{
-		arch("pkg", sym("pkg/d/e", "s/../../../outdir/newfile"), reg("pkg/d/e"))}},
+		arch("pkg", sym("pkg/d/e", "s/../../outdir/newfile"), reg("pkg/d/e"))}},
 	{Note: "regular entry over a hard link to a dangling planted symlink", Prepop: "d", Pushes: []Push{
 		arch("pkg", sym("pkg/d/s", ".."), sym("pkg/d/e", "s/../../new"), link("pkg/x", "d/e"), reg("pkg/x"))}},
 	{Note: "directory entry over a dangling planted symlink, then a file below it", Prepop: "d", Pushes: []Push{
